@@ -7,7 +7,7 @@ from vf.core import Obs
 PID = "C19"
 RULE = (
     "case = (n, collection of well ids in one of the representations list/tuple/1-D array/2-D array/column slice, "
-    "or an invalid n / empty collection); enumerated: n in 0..260 (quick: 0..80) x len 1..26 x 5 representations; "
+    "possibly with repeated wells, or an invalid n / empty collection); enumerated: n in 0..260 (quick: 0..80) x len 1..26 x 5 representations; "
     "generated: 2-D trough grids up to 26x6 with n up to 2000. Non-trivial = valid call with n > number of wells "
     "(the list has to wrap around); distinct by canonical JSON of the case."
 )
@@ -44,6 +44,10 @@ def enumerate_cases(tier):
                 shape = (length, 1)
             ns = list(range(0, nmax + 1))
             yield {"rep": rep, "rows": shape[0], "cols": shape[1], "ns": ns}
+    # collections in which a well occurs several times (the cycle length is len(wells), not the number of distinct wells)
+    for pattern in ([0, 1, 0, 2], [0, 1, 1, 2], [0, 0], [2, 1, 0, 1, 2], [0, 1, 2, 0], [1, 0, 0, 0, 1, 1]):
+        yield {"rep": "list", "rows": 3, "cols": 1, "ns": list(range(0, 20)), "pattern": pattern}
+        yield {"rep": "array1d", "rows": 3, "cols": 1, "ns": list(range(0, 20)), "pattern": pattern}
     for bad in (-1, -5, 1.0, 2.5, "2", None):
         yield {"rep": "list", "rows": 3, "cols": 1, "ns": [], "bad_n": [bad if not isinstance(bad, float) else {"float": bad}]}
     yield {"rep": "empty_list", "rows": 0, "cols": 0, "ns": [0, 1, 5]}
@@ -57,7 +61,8 @@ def strategy(tier):
             "rows": st.integers(1, 26),
             "cols": st.integers(1, 6),
             "ns": st.lists(st.one_of(st.integers(0, 60), st.integers(0, 2000)), min_size=1, max_size=4),
-        }
+        },
+        optional={"pattern": st.lists(st.integers(0, 7), min_size=1, max_size=8)},
     )
 
 
@@ -77,6 +82,8 @@ def _build(case):
         flat = [g[r][c] for r in range(rows)]
         return np.array(g)[:, c], flat
     flat = [g[r][0] for r in range(rows)]
+    if case.get("pattern") and rep in ("list", "tuple", "array1d"):
+        flat = [flat[i % len(flat)] for i in case["pattern"]]
     if rep == "list":
         return list(flat), flat
     if rep == "tuple":
@@ -130,4 +137,6 @@ def check_case(case) -> Obs:
             obs.cls("exact-multiple")
         if n == 0:
             obs.cls("n=0")
+        if len(set(flat)) < len(flat):
+            obs.cls("repeated-wells")
     return obs
